@@ -37,6 +37,11 @@ class Expr:
         self.env = env        # set of let-bound names
 
     def tr(self, e):
+        if isinstance(e, ast.BinOp) and isinstance(e.op, ast.Mod):
+            a = self.atom(e)
+            if a is not None:
+                return a
+            raise TranslationError('unsupported modulus %s' % ast.unparse(e))
         if isinstance(e, ast.BinOp):
             a, b = self.tr(e.left), self.tr(e.right)
             if isinstance(e.op, ast.Add):
@@ -364,14 +369,140 @@ def translate_rotation_matrix():
     return 'RotationMatrix.v', '\n'.join(out) + '\n'
 
 
-KERNELS = [translate_surface, translate_curve, translate_generic_quotient, translate_rotation_matrix]
+# ----------------------------------------------------------------------------
+# curve_factory.circle: the hard-coded rational control nets (sqrt(2) enters as the oracle variable s2)
+
+def translate_circle_nets():
+    src = open(os.path.join(REPO, 'splipy', 'curve_factory.py')).read()
+    f = find_func(ast.parse(src), None, 'circle')
+    nets = {}
+
+    def atom_factory(env):
+        def atom(e):
+            if isinstance(e, ast.Call) and ast.unparse(e) == 'sqrt(2)':
+                return 's2'
+            if isinstance(e, ast.Name) and e.id in env:
+                return None
+            return None
+        return atom
+
+    def do_branch(stmts, key):
+        env = set()
+        assigns = []
+        net = None
+        for st in stmts:
+            if not isinstance(st, ast.Assign) or len(st.targets) != 1 or not isinstance(st.targets[0], ast.Name):
+                raise TranslationError('circle(%s): unsupported statement %s' % (key, ast.unparse(st)))
+            nm = st.targets[0].id
+            if nm == 'controlpoints':
+                if not isinstance(st.value, ast.List):
+                    raise TranslationError('circle(%s): control points are not a literal list' % key)
+                ex = Expr(atom_factory(env), env)
+                net = ['[%s]' % '; '.join(ex.tr(x) for x in row.elts) for row in st.value.elts]
+            elif nm in ('knot', 'result'):
+                continue
+            else:
+                assigns.append((nm, Expr(atom_factory(env), env).tr(st.value)))
+                env.add(nm)
+        if net is None:
+            raise TranslationError('circle(%s): no control net found' % key)
+        nets[key] = (assigns, net)
+    found = 0
+    for st in f.body:
+        if isinstance(st, ast.If) and "'p2C0'" in ast.unparse(st.test):
+            do_branch(st.body, 'p2C0')
+            found += 1
+            for st2 in st.orelse:
+                if isinstance(st2, ast.If) and 'p4c1' in ast.unparse(st2.test).lower():
+                    do_branch(st2.body, 'p4C1')
+                    found += 1
+    if found != 2:
+        raise TranslationError('circle: expected the p2C0 and p4C1 branches')
+    out = ['(* GENERATED by harness/translate.py from splipy/curve_factory.py (circle); do not edit *)',
+           'From Coq Require Import ZArith List.', 'From SplipyModel Require Import Model.Num.', 'Import ListNotations.', '',
+           '(* s2 stands for sqrt(2) *)']
+    for key in ('p2C0', 'p4C1'):
+        assigns, net = nets[key]
+        out.append('Definition circle_net_%s {F : Type} `{Num F} (s2 : F) : list (list F) :=\n%s\n  [%s].\n'
+                   % (key, lets(assigns, len(assigns)), ';\n   '.join(net)))
+    return 'CircleNets.v', '\n'.join(out) + '\n'
+
+
+# ----------------------------------------------------------------------------
+# curve_factory.circle_segment: the control point rule of the loop body (cos/sin values enter as parameters)
+
+def translate_circle_segment():
+    src = open(os.path.join(REPO, 'splipy', 'curve_factory.py')).read()
+    f = find_func(ast.parse(src), None, 'circle_segment')
+    loop = None
+    pre = {}
+    for st in f.body:
+        if isinstance(st, ast.For) and ast.unparse(st.iter) == 'range(n)' and ast.unparse(st.target) == 'i':
+            loop = st
+        if isinstance(st, ast.Assign) and len(st.targets) == 1 and isinstance(st.targets[0], ast.Name):
+            pre[st.targets[0].id] = st.value
+    if loop is None:
+        raise TranslationError('circle_segment: control point loop not found')
+    for nm in ('n', 'dt', 't', 'knot_spans'):
+        if nm not in pre:
+            raise TranslationError('circle_segment: assignment to %s not found' % nm)
+    if ast.unparse(pre['t']) != '0':
+        raise TranslationError('circle_segment: the angle does not start at 0')
+    if ast.unparse(pre['knot_spans']).replace(' ', '') != 'int(ceil(abs(theta)/(2*pi/3)))':
+        raise TranslationError('circle_segment: unexpected knot span count ' + ast.unparse(pre['knot_spans']))
+
+    def atom(e):
+        u = ast.unparse(e).replace(' ', '')
+        table = {'cos(dt)': 'cos_dt', 'cos(t)': 'cos_t', 'sin(t)': 'sin_t', 'r': 'r', 'i%2': '(nofZ (Z.of_nat (Nat.modulo i 2)))',
+                 'float(theta)': 'theta', 'theta': 'theta', 'knot_spans': '(nofZ (Z.of_nat ks))'}
+        return table.get(u)
+    env = set()
+    assigns = []
+    row = None
+    step = None
+    for st in loop.body:
+        if isinstance(st, ast.Assign) and len(st.targets) == 1 and isinstance(st.targets[0], ast.Name):
+            assigns.append((st.targets[0].id, Expr(atom, env).tr(st.value)))
+            env.add(st.targets[0].id)
+        elif isinstance(st, ast.AugAssign) and isinstance(st.op, ast.Add) and ast.unparse(st.target) == 'cp':
+            v = st.value
+            if not (isinstance(v, ast.List) and len(v.elts) == 1 and isinstance(v.elts[0], ast.List)):
+                raise TranslationError('circle_segment: unexpected cp update ' + ast.unparse(st))
+            row = [Expr(atom, env).tr(x) for x in v.elts[0].elts]
+        elif isinstance(st, ast.AugAssign) and isinstance(st.op, ast.Add) and ast.unparse(st.target) == 't':
+            if ast.unparse(st.value) != 'dt':
+                raise TranslationError('circle_segment: unexpected angle step ' + ast.unparse(st))
+            step = True
+        else:
+            raise TranslationError('circle_segment: unsupported loop statement ' + ast.unparse(st))
+    if row is None or not step or len(row) != 3:
+        raise TranslationError('circle_segment: loop body incomplete')
+    # n = (knot_spans - 1) * 2 + 3 on naturals
+    nn = ast.unparse(pre['n']).replace(' ', '')
+    if nn != '(knot_spans-1)*2+3':
+        raise TranslationError('circle_segment: unexpected control point count ' + nn)
+    dt = Expr(atom, set()).tr(pre['dt'])
+    out = ['(* GENERATED by harness/translate.py from splipy/curve_factory.py (circle_segment); do not edit *)',
+           'From Coq Require Import ZArith List Arith.', 'From SplipyModel Require Import Model.Num.', 'Import ListNotations.', '',
+           '(* control point i of the loop; cos_dt = cos(dt), cos_t = cos(t), sin_t = sin(t) for the current angle t *)',
+           'Definition cs_row {F : Type} `{Num F} (r cos_dt cos_t sin_t : F) (i : nat) : list F :=\n%s\n  [%s].\n'
+           % (lets(assigns, len(assigns)), '; '.join(row)),
+           '(* t += dt *)', 'Definition cs_next_t {F : Type} `{Num F} (t dt : F) : F := nadd t dt.\n',
+           '(* dt, n as functions of theta and the number of knot spans ks *)',
+           'Definition cs_dt {F : Type} `{Num F} (theta : F) (ks : nat) : F := %s.' % dt,
+           'Definition cs_n (ks : nat) : nat := ((ks - 1) * 2 + 3)%nat.']
+    return 'CircleSegment.v', '\n'.join(out) + '\n'
+
+
+KERNELS = [translate_surface, translate_curve, translate_generic_quotient, translate_rotation_matrix, translate_circle_nets, translate_circle_segment]
 
 
 KERNEL_FILES = {'translate_surface': 'RatDerivSurface.v', 'translate_curve': 'RatDerivCurve.v',
-                'translate_generic_quotient': 'RatDerivGeneric.v', 'translate_rotation_matrix': 'RotationMatrix.v'}
+                'translate_generic_quotient': 'RatDerivGeneric.v', 'translate_rotation_matrix': 'RotationMatrix.v',
+                'translate_circle_nets': 'CircleNets.v', 'translate_circle_segment': 'CircleSegment.v'}
 # which properties' proofs are about which regenerated kernel
 KERNEL_PROPERTIES = {'RatDerivSurface.v': ['C03'], 'RatDerivCurve.v': ['C03'], 'RatDerivGeneric.v': ['C03'],
-                     'RotationMatrix.v': ['C09', 'C13']}
+                     'RotationMatrix.v': ['C09', 'C13'], 'CircleNets.v': ['C13'], 'CircleSegment.v': ['C13']}
 FALLBACK = os.path.join(VERIF, 'coq', 'fallback_gen')
 FAILED = {}   # file name -> error text (this run)
 
